@@ -99,7 +99,16 @@ func Harness_C01_flow_through_transport_pairs_T() {
 	split := verifPick("split", 1, 2)
 	stringData := verifPick("string-data", 0, 1) == 1
 	w := df.VerifBuildDirectFlow([]int{t1, t2}, []int{0, 1}, split, 0, stringData)
-	// two closures in sequence with non-pointer data: recorded finding KF-C01-closure-chain
-	known := stringData && df.VerifClosureTransport(t1) && df.VerifClosureTransport(t2)
-	verifAssertKnown("explicit-source-to-sink-flow-is-reported", "KF-C01-closure-chain", known, c01ProgReported(w, c01ProgConfig(false, false)))
+	verifAssert("explicit-source-to-sink-flow-is-reported", c01ProgReported(w, c01ProgConfig(false, false)))
+}
+
+// chains of two sequential transports with summarize-on-demand (thorough tier): same verdict as eager
+func Harness_C05_on_demand_whole_pipeline_pairs_T() {
+	t1 := verifPick("t1", 0, df.VerifNumTransports-1)
+	t2 := verifPick("t2", 0, df.VerifNumTransports-1)
+	verifAssume(df.VerifSequentialTransport(t1) && df.VerifSequentialTransport(t2))
+	stringData := verifPick("string-data", 0, 1) == 1
+	eager := c01ProgReported(df.VerifBuildDirectFlow([]int{t1, t2}, []int{0, 1}, 1, 0, stringData), c01ProgConfig(false, false))
+	onDemand := c01ProgReported(df.VerifBuildDirectFlow([]int{t1, t2}, []int{0, 1}, 1, 0, stringData), c01ProgConfig(false, true))
+	verifAssert("same-verdict-with-summarize-on-demand-on-and-off", eager == onDemand)
 }
